@@ -129,3 +129,17 @@ def units(prop, tier):
             out.append(pyvc_unit(prop, 'dh.agreement.%s' % EC.LABEL[cid], lambda cid=cid: registry(cid, tier), [D + 'key_agreement'], weight=4,
                                  tiers=('quick', 'thorough') if cid == 3 else ('thorough',)))
     return out
+
+
+# ======================================================================================================================================
+# Vacuity / strength checks (lib/Crypto/Protocol/DH.py, C06 --only dh.):
+#   `Ze = _compute_ecdh(eph_priv, static_pub)` -> `(static_priv, static_pub)`   exit 1  key_agreement.ensures.Z (+ call_pre key_priv._d is not None)
+#   `Z = Ze + Zs` -> `Zs + Ze`                                                  exit 1  key_agreement.ensures.Z
+#   X25519: `to_bytes(32, byteorder='little')` -> `'big'`                       exit 1  _compute_ecdh.ensures.Z (curve25519)
+#   `if pointP.is_point_at_infinity():` disabled                                exit 1  _compute_ecdh.raises_iff.ValueError.if (+ symmetry lemma)
+#   `key_pub.pointQ * key_priv.d` -> `key_priv.pointQ * key_priv.d`             exit 1  _compute_ecdh.ensures.Z / .cache / raises_iff (29 obligations)
+#   local `pointP` renamed                                                      exit 0
+# Assumed: the native point libraries (ecc_common.install_native; bounded/ec.py), Integer.to_bytes == I2OSP (bounded/bigint.py), the group axiom instances
+#          smul_assoc / xsmul_assoc (spec/ecgroup.py: trusted mathematics).  The caller's kdf is an uninterpreted function of Z.
+# NOT PROVED: key_agreement with keys of DIFFERENT curves (TypeError branch 'incompatible curve'): every registry is built for one curve, so that branch
+#             is unreachable here; import_x25519_* / import_x448_* wrappers (two-line compositions of proved functions).
